@@ -6,6 +6,7 @@ third-party driver boundary (serial.Serial, libusbsio.usbsio) and the `time` mod
 from __future__ import annotations
 
 import copy
+import os
 import hashlib
 import random
 import struct
@@ -508,7 +509,11 @@ class Run:
 
         # ---- oracles that hold in every configuration
         if outcome[0] == "other_exc" and not extra_fault:
-            self.violation("undocumented-exception", outcome[1], f"{where}: raised {outcome[1]} instead of a documented SPSDK error", detail=outcome[2])
+            if getattr(s, "tainted", False) and s.transport == "hid":
+                # answers of the wrong command (see check_success) may also make a decoder trip: same recorded class
+                self.violation("later-call-on-hid", "stale-report-answers-later-call", f"{where}: raised {outcome[1]} on a USB-HID session that met a fault earlier", detail=outcome[2])
+            else:
+                self.violation("undocumented-exception", outcome[1], f"{where}: raised {outcome[1]} instead of a documented SPSDK error", detail=outcome[2])
         if outcome[0] == "unbounded" and not extra_fault:
             self.violation("unbounded", spec.name, f"{where}: {outcome[1]}")
         nfr = spec.n_frames()
@@ -570,7 +575,7 @@ class Run:
         if clean_refusal:
             self.probe("session_continues_after_device_error_status")
         elif listed_fault or extra_fault or outcome[0] in ("spsdk_exc", "other_exc", "unbounded") or status_code == 10004:
-            if self.plan.get("continue_after_fault") and s.transport == "uart" and outcome[0] in ("ret", "spsdk_exc") and s.mb.is_opened:
+            if self.plan.get("continue_after_fault") and (s.transport == "uart" or not extra_fault) and outcome[0] in ("ret", "spsdk_exc") and s.mb.is_opened:
                 # the caller simply goes on with the same port. Whatever was still on the wire arrives in the idle time
                 # before the next call (a late answer included: SerialDevice purges its input before every frame)
                 CLOCK.advance(30_000_000)
@@ -596,6 +601,19 @@ class Run:
         kind = spec.expect_ret[0]
         if kind in ("listing", "any"):
             return
+        if getattr(s, "tainted", False) and s.transport == "hid":
+            # a later call on a USB-HID session that met a fault earlier: reports left over from the failed exchange answer
+            # it (the serial path purges its input before every frame, the HID path has no such step). Recorded finding:
+            # one class for every operation, so that wrong successes anywhere else keep their own classes.
+            before = len(self.records)
+            self._check_success(s, spec, ret, hist, datas, where, exact, "later-call-on-hid")
+            for r_ in self.records[before:]:
+                r_["site"] = "stale-report-answers-later-call"
+            return
+        self._check_success(s, spec, ret, hist, datas, where, exact, oracle)
+
+    def _check_success(self, s, spec, ret, hist, datas, where, exact, oracle) -> None:
+        kind = spec.expect_ret[0]
         if kind == "bytes":
             exp = spec.expect_ret[1]
             if exp is None or bytes(ret) != exp:
